@@ -36,6 +36,9 @@ def load_units() -> dict:
             LOAD_ERRORS.append(str(p))
             continue
         for u in us:
+            for h in u.harnesses:
+                h.path = h.path or u.harness_path
+                h.unit = u.name
             units[u.name] = u
     return units
 
@@ -191,19 +194,39 @@ def main(argv=None):
     REPLAYS.mkdir(exist_ok=True)
 
     # select harnesses
-    plan = []
+    cap = int(os.environ.get("VERIF_QUICK_CAP", "4"))
+    selected = {}
     for u in units.values():
         hs = [h for h in u.harnesses if prop in h.props and (tier == "thorough" or h.tier == "quick")]
         if only:
             un, _, hre = only.partition(":")
-            if u.name != un:
+            if u.name != un and u.group != un:
                 continue
             if hre:
                 hs = [h for h in hs if re.search(hre, h.name)]
+        elif tier == "quick" and len(hs) > cap:
+            # quick tier: at most `cap` harnesses per unit and property — canaries first (vacuity guard), then the harnesses whose
+            # primary (first-listed) property is this one, then declaration order; the rest runs in the thorough tier
+            canaries = [h for h in hs if h.expect == "fail"][:1]
+            rest = sorted([h for h in hs if h.expect != "fail"], key=lambda h: 0 if h.props[0] == prop else 1)
+            hs = rest[:cap - len(canaries)] + canaries
         if hs:
-            plan.append((u, hs))
-    if not plan:
+            selected[u.name] = hs
+    if not selected:
         print(f"no harness carries {prop} in tier {tier}")
+        return 2
+    # units of the same group share one scratch workspace and one build
+    groups = {}
+    for un in selected:
+        g = units[un].group or un
+        groups.setdefault(g, []).append(units[un])
+    plan = []
+    try:
+        for g, us in groups.items():
+            mu = core.merge_group(g, us)
+            plan.append((mu, [h for u in us for h in selected[u.name]]))
+    except Undecided as e:
+        print(f"UNDECIDED {e}")
         return 2
 
     results: list[HarnessResult] = []
@@ -269,11 +292,11 @@ def main(argv=None):
             if key in seen:
                 continue
             seen.add(key)
-            u = units[r.unit]
+            u = next(mu for mu, hs_ in plan if any(h is r.harness for h in hs_))
             info = {"counterexample": None, "native_replay": "not-attempted", "native_output": ""}
             if len(seen) <= 1:
                 try:
-                    info = playback(u, r.harness, workspaces[r.unit], logdir)
+                    info = playback(u, r.harness, workspaces[u.name], logdir)
                 except Exception as e:  # noqa
                     info["native_replay"] = f"replay-error: {e}"
             path = REPLAYS / f"{prop}-{r.unit}-{r.harness.name}.json"
